@@ -23,7 +23,7 @@ struct Eval {
 };
 
 // run one plan in a child process; a child that dies yields "<prop>|<op>|process_abort"
-inline Eval evaluate(const J& plan, int timeout_s = 60) {
+inline Eval evaluate(const J& plan, int timeout_s = 30) {
     Eval ev;
     int fds[2];
     if (pipe(fds) != 0) return ev;
